@@ -4,7 +4,7 @@ package mut
 // value is expected.
 var ShapeKinds = []string{"null", "absent", "empty-bytes", "zero-bytes", "truncate", "extend", "huge-bytes", "type-int", "type-text", "type-array", "type-map", "type-bool",
 	"empty-map", "empty-array", "int-minus1", "int-small", "int-2^32", "int-max", "dup-entry", "dup-key-other-value", "drop-entry", "unknown-key", "identity-point", "flip-low-bit",
-	"drop-leading-byte", "copy-sibling", "array-grow", "array-100k", "count-prefix-max", "count-prefix-zero", "count-prefix-plus1", "nested-garbage", "nested-truncate"}
+	"drop-leading-byte", "copy-sibling", "array-grow", "array-100k", "count-prefix-max", "count-prefix-zero", "count-prefix-plus1", "count-prefix-wrap", "nested-garbage", "nested-truncate"}
 
 // Shape applies malformation kind at node number pick (mod the number of nodes). It reports the path and
 // whether the malformation was applicable there.
@@ -147,11 +147,17 @@ func Shape(root *Node, pick int, kind string, arg int) (path string, ok bool) {
 		for len(n.A) < 100000 {
 			n.A = append(n.A, &Node{K: Raw, B: el})
 		}
-	case "count-prefix-max", "count-prefix-zero", "count-prefix-plus1":
+	case "count-prefix-max", "count-prefix-zero", "count-prefix-plus1", "count-prefix-wrap":
 		if n.K != Bytes || n.Inner == nil || len(n.Prefix) != 4 {
 			return path, false
 		}
 		switch kind {
+		case "count-prefix-wrap":
+			// the smallest counts whose product with a plausible element size (compressed point, scalar, uncompressed
+			// point, x/y pair) wraps around 2^32 to a tiny value: a bound computed in 32 bits lets them through
+			e := []uint64{33, 32, 65, 64}[arg%4]
+			v := (uint64(1)<<32+e-1)/e + uint64(arg/4%3)
+			n.Prefix = []byte{byte(v >> 24), byte(v >> 16), byte(v >> 8), byte(v)}
 		case "count-prefix-max":
 			n.Prefix = []byte{0xff, 0xff, 0xff, 0xff}
 		case "count-prefix-zero":
